@@ -5,6 +5,26 @@ HERE = os.path.dirname(os.path.dirname(os.path.abspath(__file__)))
 PY = '/venv/bin/python'
 
 CHECKS = {
+ 'C08': dict(sec='2/C08', cat='exploration',
+   text='Every breakpoint option is driven with sorted/shuffled, clustered, duplicated, float32/float64 abscissae; the constructed knot vector is checked for monotonicity, coverage and padding, and value()/bsplvn()/mask are compared at data points, knots, midpoints and just-outside points with an independent Cox-de Boor recursion and with scipy BSpline, plus an exact order-permutation metamorphic check. Held on the constructions observed (one open finding: every-n with a single breakpoint).',
+   note='Trusts the textbook recursion in vlib/refs/bspline_ref.py and scipy.interpolate.BSpline; values exactly on a discontinuity (breakpoint repeated more than order-1 times) are convention and not compared.',
+   tech='runtime monitoring: boundary recorder + two independent reference evaluators + metamorphic order check'),
+ 'C09': dict(sec='2/C09', cat='exploration',
+   text='Well-supported fits are compared with dense weighted lstsq on an independently built design matrix (fitted values, chi-square, coefficients), with polynomial reproduction, zero-weight invariance (bit-identical) and linearity; the banded Cholesky pair is checked by dense reconstruction on random SPD matrices and must signal non-PD/non-finite input; ill-posed fits (gaps, empty segments, zero-weight runs, few points) must return a status code with finite coefficients and terminate under refitting. Counters prove maskpoints and the Cholesky fallback were actually entered.',
+   note='Trusts numpy.linalg.lstsq/solve; well-posed problems use quasi-uniform knots and weights within 3 decades (conditioning assumption stated in the evidence).',
+   tech='runtime monitoring: boundary recorder + dense linear-algebra oracle + status/mask discipline monitor'),
+ 'C14': dict(sec='2/C14', cat='exploration',
+   text='smooth, median, uniq and rebin are run on generated arrays (all widths, ties, constants, 1-3-D shapes, every expand/keep/shrink combination incl. float-fragile factors, integer and float dtypes) and compared element-wise with reference implementations written from the IDL definitions; shapes/dtypes exact, sample picks exact, integer interpolation within 1 of the exact rational value; refusals must be ValueError. Held on the calls observed (one open IDL-faithful finding for uniq with index on constant arrays).',
+   note='Trusts vlib/refs/idl_builtins.py (independent re-implementation of the IDL rules) and exact integer arithmetic for rebin positions.',
+   tech='runtime monitoring: boundary recorder + reference-implementation oracle over generated arrays'),
+ 'C17': dict(sec='2/C17', cat='exploration',
+   text='djs_reject is driven through 1-3-call histories with residuals planted at (1 +- 1e-8..1e-1) x every limit and compared point by point with a long-double reference (ambiguity band 1e-9), incl. grow clipping, sticky masks and qdone; djs_maskinterp vs brute-force nearest-good-neighbour interpolation on 1-3-D arrays/axes/unsorted x; aesthetics must not touch good pixels; reflecting djs_median vs a brute-force symmetric-reflection median; skymask vs bit tests on Python ints for int16/32/64/uint64 masks. 29 required counters show each deciding branch was reached.',
+   note='Trusts numpy long double and the reference models in vlib/refs/pixels.py; grow applies around points rejected by a limit in the same call (IDL semantics); domain exclusions listed in the evidence assumptions.',
+   tech='runtime monitoring: boundary recorder + element-wise reference-model oracle with ambiguity bands over call histories'),
+ 'C18': dict(sec='2/C18', cat='exploration',
+   text='gcirc (three unit conventions, arrays/scalars), the astropy-registered ICRS<->SDSSMuNu transforms for every stripe 0-90 in both directions, and angles<->unit vectors are compared element-wise with an independent long-double model on constructed point pairs over 13 decades of separation incl. exact poles, seam, coincident and antipodal points; symmetry, isometry, round trip, great-circle and stripe-definition relations are asserted under conditioning-derived tolerances with >=100x margin. Sampling with reach evidence, not a proof over the sphere.',
+   note='Trusts x87 long-double trig in vlib/refs/sphere.py (self-cross-checked against a second formula and the constructed separation in every case) and astropy SkyCoord machinery around the pydl transform functions.',
+   tech='runtime monitoring: boundary recorder + long-double reference oracle + constructed-pair metamorphic relations'),
  'C01': dict(sec='2/C01', cat='exploration',
    text='Every generated table set (all supported column types, hostile strings, extreme numbers, zero-row tables, structure-name torture, headers, Table API, big-endian input) is written with the real writer and read back twice (returned object and fresh read); a table-set model checks names, order, dtypes, rows, bit-identical floats and header text, and unsupported column types must be refused without leaving a file. Held on the documents observed; coverage is sampling of an infinite input space with reach evidence of the writer/parser lines.',
    note='Trusts numpy bit views for float comparison and the stated exclusions of inexpressible texts (listed in the evidence assumptions).',
